@@ -30,9 +30,10 @@ Hypotheses: soundness (shape, edge justification, closedness) needs only `NoRese
 property; totality needs `isWellFormed`, `NoReserved` and `HasReps`.
 -/
 import Verif.C05.ExprLemmas
+import Verif.Generated.TablesC05
 
 namespace Verif.C05
-open Verif.Sem
+open Verif.Sem Verif.Tables
 
 /-! ## "unique predication ids in MRS" (`_uniquify_ids`) -/
 
@@ -287,5 +288,85 @@ theorem f08_not_hasReps : ¬ HasReps f08Witness := by
   have := fromMrs_total_cex_F08.2.1
   rw [he] at this
   simp [raisesIndexError] at this
+
+/-! ## Pins: the constants of the anchored code that the hand-written model mirrors
+
+`Verif/Generated/TablesC05.lean` is regenerated on every run (`harness/c05.py: tables()`) from the
+live objects of the checkout: module-level constants, the variable regex, `_UNTENSED_VALUES`, the
+default arguments and the string / number / keyword-name constants of the code objects (nested ones
+included; `None`, booleans and every string containing white space — docstrings, warning and
+exception texts — left out) of every function the model mirrors.  Which model definition hand-codes
+which constant:
+
+* `BV_ROLE`, `PM_ROLE` (Model) — `eds.BOUND_VARIABLE_ROLE`, `eds.PREDICATE_MODIFIER_ROLE`;
+* `INTRINSIC_ROLE`, `RESTRICTION_ROLE`, `CONSTANT_ROLE` (Sem: `EP.iv`, `EP.isQuantifier`,
+  `EP.outArgs`) — the role constants of `mrs/_mrs.py`; `BODY` is pinned because the model treats it
+  as an ordinary role;
+* `EP.baseId` (`⟨"q", vid⟩`, default ARG0 `_0`), `EP.type` (sort `_` ↦ none) —
+  `_QUANTIFIER_TYPE`, the constants `'_0'`, `'_'` of `EP.__init__`;
+* `uniquify`, `maxVid` — `_uniquify_ids`: `max(…, default=0)`, the format `'_{}'`, step `1`;
+* `freshId`, `assignStep` (counter from 1), `sortLosers`/`reassignStep` (`sorted(key=…)`, `[1:]`) —
+  `make_ids_unique`: the f-string prefix `'_'`, `count(start=1)`;
+* `getTop`, `resolveArg`, `firstRep` (`reps[lbl][0]`) — index `0` of `_mrs_get_top` /
+  `_mrs_args_to_basic_deps` (`2` is the `stacklevel` of the warnings);
+* `mkNode` (`type, properties = None, None` for quantifiers) — `_mrs_to_nodes`;
+* `pmStep` (default `⟨"u", 0⟩`, test `asciiLower sort = "u"`), `pmScope` (`len(eps) > 1`, `eps[0]`,
+  `eps[1:]`), `findPredicateModifiers` (`len(components) > 1`) — `find_predicate_modifiers`:
+  `'u0'`, `'u'`, `1`, `0`; `variable.UNSPECIFIC`;
+* `fromMrs` (arguments `predicate_modifiers=True, unique_ids=True`, default priority) — the defaults
+  `(True, True, None)` of `from_mrs`; the oracle passes both explicitly;
+* `MRS.nsArgs` (`"xeipu"`), `candidates` (`len(scope) == 1`), `MRS.repRank` (ranks `0,2,1,3`, sorts
+  `x`, `e`, property `TENSE`, untensed values `""`, `"untensed"`), `MRS.repKey` (positions from 1) —
+  `scope.representatives`, `_make_representative_priority`, `_UNTENSED_VALUES`;
+* `LHEQ`, `QEQ` (Sem) — `scope.LHEQ`, `scope.QEQ`;
+* `Var` (sort, canonical numeral) and `Var.sortIn` — `variable._variable_re` and the group numbers of
+  `variable.split` / `variable.type`.
+
+A change to any of these makes this theorem stop checking; the check then reports a broken proof
+obligation and searches for a failing input. -/
+theorem c05_pins :
+    -- module-level constants, tied to the model's definitions
+    (c05BoundVariableRole = BV_ROLE ∧ c05PredicateModifierRole = PM_ROLE ∧
+     c05IntrinsicRole = INTRINSIC_ROLE ∧ c05RestrictionRole = RESTRICTION_ROLE ∧
+     c05ConstantRole = CONSTANT_ROLE ∧ c05BodyRole = "BODY" ∧
+     c05QuantifierType = (EP.baseId { predicate := "", label := ⟨"h", 0⟩, args := [("RSTR", ⟨"h", 1⟩)] }).sort ∧
+     c05Unspecific = "u" ∧ freshId 1 = ⟨"_", 1⟩)
+    ∧ c05VariableSorts = ["u", "i", "p", "e", "x", "h"]
+    ∧ c05VariableRe = ["^([-\\w]*[^\\s\\d])(\\d+)$", "32"]
+    ∧ c05ScopeRelations = ["leq", LHEQ, "outscopes", QEQ]
+    ∧ c05UntensedValues = ["", "untensed"]
+    -- eds/_operations.py
+    ∧ c05FromMrsConsts = ["(priority)", "(top,nodes,lnk,surface,identifier)", "(representatives)"]
+    ∧ c05FromMrsDefaults = ["True", "True", "None"]
+    ∧ c05GetTopConsts = ["0", "2", "(stacklevel)"] ∧ c05GetTopDefaults = []
+    ∧ c05BasicDepsConsts = ["0", "2", "(stacklevel)"] ∧ c05BasicDepsDefaults = []
+    ∧ c05ToNodesConsts = ["(None,None)"] ∧ c05ToNodesDefaults = []
+    ∧ c05FindPredicateModifiersConsts = ["1", "0", "u0", "u"]
+    ∧ c05FindPredicateModifiersDefaults = ["None"]
+    ∧ c05MakeIdsUniqueConsts = ["_", "1", "(start)", "(key)"] ∧ c05MakeIdsUniqueDefaults = []
+    -- mrs/_mrs.py
+    ∧ c05EpInitConsts = ["_0", "_"] ∧ c05EpInitDefaults = ["None", "None", "None", "None"]
+    ∧ c05EpIsQuantifierConsts = [] ∧ c05EpIsQuantifierDefaults = []
+    ∧ c05UniquifyIdsConsts = ["0", "(default)", "_{}", "1"] ∧ c05UniquifyIdsDefaults = []
+    ∧ c05QuantificationPairsConsts = [] ∧ c05QuantificationPairsDefaults = []
+    ∧ c05MrsArgumentsConsts = [] ∧ c05MrsArgumentsDefaults = ["None", "None"]
+    ∧ c05MrsPropertiesConsts = [] ∧ c05MrsPropertiesDefaults = []
+    ∧ c05MrsScopesConsts = [] ∧ c05MrsScopesDefaults = []
+    ∧ c05MrsScopalArgumentsConsts = [] ∧ c05MrsScopalArgumentsDefaults = ["None"]
+    -- scope.py, util.py, variable.py, eds/_eds.py
+    ∧ c05RepresentativesConsts = ["xeipu", "(types)", "1", "(key)"]
+    ∧ c05RepresentativesDefaults = ["None"]
+    ∧ c05RepresentativePriorityConsts = ["1", "p", "x", "0", "e", "TENSE", "", "2", "1", "3"]
+    ∧ c05RepresentativePriorityDefaults = []
+    ∧ c05DescendantsConsts = [] ∧ c05DescendantsDefaults = []
+    ∧ c05ScopeDescendantsConsts = ["(scopes)"] ∧ c05ScopeDescendantsDefaults = ["None"]
+    ∧ c05ConnectedComponentsConsts = [] ∧ c05ConnectedComponentsDefaults = []
+    ∧ c05BfsConsts = [] ∧ c05BfsDefaults = ["None"]
+    ∧ c05VariableSplitConsts = ["1", "2"] ∧ c05VariableSplitDefaults = []
+    ∧ c05VariableTypeConsts = ["0"] ∧ c05VariableTypeDefaults = []
+    ∧ c05NodeInitConsts = []
+    ∧ c05NodeInitDefaults = ["None", "None", "None", "None", "None", "None", "None"] := by
+  refine ⟨⟨rfl, rfl, rfl, rfl, rfl, rfl, by decide, rfl, rfl⟩, ?_⟩
+  repeat' constructor
 
 end Verif.C05
